@@ -20,6 +20,8 @@ CHECKS = {
          "TLA+ acceptor (frames per entered command) model-checked with TLC; replay of all states; trace validation", "6 (C08)"),
  "C09": (MC, "DashDash action property checked by TLC; 0..3 positionals of every strictness/arity, all lines up to the bound with `--` at every position and dash-looking data on both sides, replayed with exact values.",
          "TLA+ acceptor (posOnly, strictness in Finish) model-checked with TLC; replay of all states; trace validation", "6 (C09)"),
+ "C18": (MC, "Environment states are part of the initial states of CmdLine.tla (every assignment of {unset, valid, unconvertible, guard-failing, non-UTF-8} to the declared variables); Finish consults a variable only when the item has no occurrence on the line; all (environment, line) states replayed with the process environment set accordingly, each also with an undeclared variable set.",
+         "TLA+ acceptor with environment in the initial states, model-checked with TLC; replay of all states; trace validation", "6 (C18)"),
 }
 NOTE = "Bounded: exhaustive within the stated constants, sampled beyond; trusted: TLC, the JSON reader, the dynamic builder (public bpaf API only)."
 
